@@ -407,7 +407,7 @@ func (c *StructCode) lastAnonymousFieldCode(firstField *Opcode) *Opcode {
 // is the last field of another embedded struct.
 func lastFieldOfAnonymous(code *Opcode) *Opcode {
 	for {
-		for (code.Op == OpStructHead || code.Op == OpStructField) && (code.Flags&AnonymousKeyFlags) != 0 {
+		for (code.Op == OpStructHead || code.Op == OpStructPtrHead || code.Op == OpStructField) && (code.Flags&AnonymousKeyFlags) != 0 {
 			code = code.Next
 		}
 		if code.NextField == nil {
